@@ -262,3 +262,7 @@ func Run(h func()) (prunedPath bool) {
 	h()
 	return false
 }
+
+// Exits runs f and reports whether it terminated the process (os.Exit,
+// log.Fatal*). Only the symbolic executor can observe that; natively f just runs.
+func Exits(f func()) bool { f(); return false }
